@@ -185,6 +185,10 @@ impl<'a> G<'a> {
             // rarely, even in the quick tier: a size in the 8-bit-window regime of Pippenger
             sizes.push((800, 1));
         }
+        if self.rng.chance(1, 20) || (self.cfg.thorough && self.rng.chance(1, 3)) {
+            // beyond any size the repository's tests use (a batch of 1024 signatures has 2049 terms)
+            sizes.push((2049, 1));
+        }
         if self.cfg.thorough {
             sizes.extend_from_slice(&sizes_t);
         }
@@ -280,7 +284,18 @@ impl<'a> G<'a> {
                 { let st__ = Step::Table { g, dst, a, radix, s }; self.emit(st__); }
             }
             5 => {
-                let (sa, sb) = (self.scalar(true), self.scalar(true));
+                let (mut sa, mut sb) = (self.scalar(true), self.scalar(true));
+                // one or both scalars zero: the degenerate columns of the interleaved NAF loop
+                match self.rng.below(12) {
+                    0 => {
+                        sa = Sc { b: B(vec![0u8; 32]), k: 1 };
+                        sb = Sc { b: B(vec![0u8; 32]), k: 1 };
+                        bump(&mut self.c, "probe:double_base_both_zero");
+                    }
+                    1 => sa = Sc { b: B(vec![0u8; 32]), k: 1 },
+                    2 => sb = Sc { b: B(vec![0u8; 32]), k: 1 },
+                    _ => {}
+                }
                 { let st__ = Step::Dbl2 { g, dst, sa, a, sb, d }; self.emit(st__); }
             }
             6 | 7 => self.msm(g),
